@@ -94,6 +94,11 @@ CHECKS = [
   'level': 'A return is reported exactly at the first step whose end states change the sign of the section coordinate strictly in the section\'s direction, refined at alpha in (0,1) with time elapsed + alpha dt; every write of seed i goes to cell i and output i depends on seed i only; '
            'every returned row has section coordinate exactly 0; the multiset of returned rows is identical for 1..3 workers and every completion order, for every success pattern of the per-seed map.',
   'note': '4 seeds, 2 map iterations, <= 2 integration steps per return, 3 workers; direction convention read from the code comments; energy conservation and interpolation accuracy are numerics outside; RK copy = generic kernel is C02-(4)'},
+ {'id': 'C09',
+  'technique': 'symbolic execution of the centre-manifold <-> synodic service chain: exact round trip with identity series (normal forms over Q(sqrt 2, i)), truncated power-series arithmetic (nilpotent parameter) with the code\'s own Lie series, path-exhaustive exploration of the section lift with Brent by contract',
+  'level': 'For symbolic points, mu, gamma and normal-form family: every linear stage is undone by its partner and the 4-D/6-D slots are consistent (exact round trip), stages are composed in the right order, to_cm o to_synodic = id mod degree N+1 with the code\'s forward/inverse series, '
+           'and the section lift returns a root of H(returned state) - h0 from a valid bracket with the section coordinate exactly 0.',
+  'note': 'N = 4 (5 thorough); the energy statement follows by composing C07, C08 and C18 facts (trusted chain; the glue obligation is decided here); scaling law and convergence domain outside'},
 ]
 _BUILT = {c['id'] for c in CHECKS}
 NOT_APPLICABLE = [
